@@ -389,7 +389,10 @@ class ScoredCollector(Collector):
             # matcher with a more efficient version
             if replace:
                 if replacecounter == 0 or self.minscore != minscore:
-                    self.matcher = matcher = matcher.replace(minscore or 0)
+                    # Only matchers that support block quality can compare
+                    # the minimum score against their quality bounds
+                    q = (minscore or 0) if usequality else 0
+                    self.matcher = matcher = matcher.replace(q)
                     self.replaced_times += 1
                     if not matcher.is_active():
                         break
